@@ -59,8 +59,11 @@ def eval_case(hist, rec):
 
 
 def strategy():
+    # member configs often differ only in the NAME of a mount (the same computations under other namespaces): shared
+    # objects then carry different names in different members
     return histgen.histories(KINDS, max_ops=18, n_variants=(2, 4),
-                             gen_kw=dict(max_modules=3, max_tasks=3, kinds=gen.KINDS_ALL))
+                             gen_kw=dict(max_modules=3, max_tasks=3, kinds=gen.KINDS_ALL),
+                             variant_kinds=histgen.CONFIG_ONLY + ['rename_mount'] * 6)
 
 
 def plan(tier):
